@@ -108,17 +108,34 @@ def all_scenarios():
                     yield ('%s/%s/%s/%s' % (pre, queue, ending, aname), ('string', act, False, pre, queue, ending, 0))
 
 
+def raw_scenarios():
+    """watches that have been consumed never influence a later transaction - also when the watched database was swapped meanwhile"""
+    for end in ([[b'exec']], [[b'discard']], [[b'unwatch'], [b'discard']], [[b'exec', b'x']]):
+        for swap in ([b'swapdb', b'0', b'1'], [b'swapdb', b'1', b'0'], [b'swapdb', b'0', b'0'], [b'flushall'], [b'select', b'0']):
+            for wdb in (b'0', b'1'):
+                evs = [('open', 1), ('open', 2), ('cmd', 1, [b'select', wdb]), ('cmd', 2, [b'set', K, b'orig']), ('cmd', 1, [b'watch', K, K2]), ('cmd', 2, list(swap)),
+                       ('cmd', 1, [b'multi']), ('cmd', 1, [b'set', b'out', b'1'])] + [('cmd', 1, list(f)) for f in end]
+                # the old watches are gone: writes to the key in either database must not disturb the next transaction
+                for db in (b'0', b'1'):
+                    evs += [('cmd', 2, [b'select', db]), ('cmd', 2, [b'set', K, b'later']), ('cmd', 2, [b'del', K2])]
+                evs += [('cmd', 1, [b'multi']), ('cmd', 1, [b'incr', b'cnt']), ('cmd', 1, [b'exec']), ('cmd', 1, [b'get', b'cnt']),
+                        # ... and a fresh watch works in the swapped database
+                        ('cmd', 1, [b'watch', K]), ('cmd', 2, [b'select', wdb]), ('cmd', 2, [b'append', K, b'!']), ('cmd', 1, [b'multi']), ('cmd', 1, [b'incr', b'cnt']), ('cmd', 1, [b'exec'])]
+                yield ('consumed-watch/%s/%s/db%s' % (end[0][0].decode(), swap[0].decode() + swap[-1].decode(), wdb.decode()), evs)
+
+
 def run(res, prop, tier, seed, t_end, observers, scope=None):
     import time
     scs = list(all_scenarios())
     rng = random.Random(seed * 13 + 5)
     if tier == 'quick':
         scs = rng.sample(scs, min(len(scs), 5000))
+    scs += [(n, ('raw', e)) for n, e in raw_scenarios()]
     for name, args in scs:
         if time.time() > t_end:
             res.notes.append('scenario enumeration: time budget reached')
             return
-        evs = scenario(*args)
+        evs = args[1] if args[0] == 'raw' else scenario(*args)
         for version in ((6, 7) if tier == 'thorough' else (rng.choice([6, 7]),)):
             s, d = Cp.replay_events(evs, version, seed, observers)
             res.absorb(s)
